@@ -306,14 +306,14 @@ pub fn elements(ctx: &Ctx) {
     let d = match doc(bk) {
         Ok(d) => d,
         Err(e) => {
-            ctx.machinery_error(format!("base document {bk}: {e}"));
+            ctx.violation(format!("{P}/base-document-unusable"), format!("base document {bk} (written by the real writer or encoded independently) cannot be prepared: {e}"));
             return;
         }
     };
     let base_report = match report(&d.bytes) {
         Ok(r) => r,
         Err(e) => {
-            ctx.machinery_error(format!("base document {bk} unreadable: {e}"));
+            ctx.violation(format!("{P}/base-document-unusable"), format!("base document {bk} (written by the real writer or encoded independently) cannot be read: {e}"));
             return;
         }
     };
@@ -375,7 +375,7 @@ pub fn attributes(ctx: &Ctx) {
     let d = match doc(bk) {
         Ok(d) => d,
         Err(e) => {
-            ctx.machinery_error(format!("base document {bk}: {e}"));
+            ctx.violation(format!("{P}/base-document-unusable"), format!("base document {bk} (written by the real writer or encoded independently) cannot be prepared: {e}"));
             return;
         }
     };
@@ -531,7 +531,7 @@ pub fn scoped_ns(ctx: &Ctx) {
     let d = match doc(k) {
         Ok(d) => d,
         Err(e) => {
-            ctx.machinery_error(format!("base document {k}: {e}"));
+            ctx.violation(format!("{P}/base-document-unusable"), format!("base document {k} (written by the real writer or encoded independently) cannot be prepared: {e}"));
             return;
         }
     };
@@ -567,7 +567,7 @@ pub fn scoped_ns(ctx: &Ctx) {
     nx.push_str(&xml[ins..]);
     ctx.describe(|| format!("document {k}: declaration{decl} moved from e57Root to the start tag at offset {ts} ({})", ["the record element", "prototype", "points", "the data3D child"][target]));
     if e57spec::xml::parse(&nx).is_err() {
-        ctx.machinery_error("the edited document is not well-formed".to_string());
+        ctx.violation(format!("{P}/precondition/edited-document-not-well-formed"), "the document produced by the writer, with the declaration moved, is not well-formed".to_string());
         return;
     }
     let bytes = rebuild(&d, &nx);
@@ -601,7 +601,7 @@ pub fn depth(ctx: &Ctx) {
     let d = match doc(k) {
         Ok(d) => d,
         Err(e) => {
-            ctx.machinery_error(format!("base document {k}: {e}"));
+            ctx.violation(format!("{P}/base-document-unusable"), format!("base document {k} (written by the real writer or encoded independently) cannot be prepared: {e}"));
             return;
         }
     };
@@ -654,7 +654,7 @@ pub fn pairs(ctx: &Ctx) {
     let d = match doc(bk) {
         Ok(d) => d,
         Err(e) => {
-            ctx.machinery_error(format!("base document {bk}: {e}"));
+            ctx.violation(format!("{P}/base-document-unusable"), format!("base document {bk} (written by the real writer or encoded independently) cannot be prepared: {e}"));
             return;
         }
     };
